@@ -5,6 +5,8 @@ b  hits lie in their bracketing interval: alpha clamp, Newton clamps, th/xh conv
 c  every cubic site is a cubic Hermite interpolant; _hermite_der is its derivative; centred slopes
 d  ordering (stable by segment), de-duplication against the previous kept hit, truncation, labelling
 e  the affine event g = n.state - c and axis_plane's unit normal
+
+e (added)  every SynodicBackendRequest the engine builds (serial and per worker) copies every detection setting of the template
 """
 from __future__ import annotations
 
